@@ -15,6 +15,7 @@ import (
 	"errors"
 	"fmt"
 	"math/rand"
+	"runtime/debug"
 	"sort"
 	"strings"
 	"time"
@@ -1141,6 +1142,8 @@ func random(r *vlib.Run) {
 
 func body(r *vlib.Run) {
 	cache.Now = virtualNow
+	// Millions of short-lived caches and messages: trade a few MB for less GC work.
+	debug.SetGCPercent(400)
 	if r.OnlyTrial < 0 || r.OnlyMode == "exhaustive" {
 		exhaustive(r)
 	}
